@@ -55,8 +55,8 @@ CLAIMED = {
          "C16.1 the read loop starts only on the hook-success edge at the four establishment sites and nowhere else; C16.2 Pre* session I/O only on the statusPreparing edge; C16.3 binding (per-message entry) installed only on pooled contexts, never called directly, socket readers are the read loop and PreReceive; C16.4 PostAccept returns nil only without checker, else the checker's status or the send failure; PostDial returns the bearer's status; C16.5 once-closures: per-invocation flag, CAS, misuse status, I/O only after success (with C07.3/C07.6/C07.11 and C09.1 for hook order/veto); C16.6 rejected connections leave the index; C16.7 a panicking hook rejects (the recover branch sets the returned result)",
          "bytes a client pipelines behind the auth frame stay buffered in the socket reader and are processed after a successful exchange (run-time question); user checker functions; RawPush is not gated (documented for hook use)"),
  "C03": ("dispatch / exactly-once analysis: who-may-call, exhaustive constant-dispatch by value tracking, dominance on OK edges, must-pass-through for the reply, static reachability (go/ssa)",
-         "C03.1 handle() has one caller, once per message; C03.2 handle()/binding() dispatch exactly {Call,Reply,Push}, everything else disconnects / is marked not-allowed; C03.3 handler at most once and only on the OK edges of c.stat and of the body hook, handler fields read nowhere else; C03.4 writeReply on every normal path, second write only after a failed first, written flag only after success; C03.5 panic path: recover, 500 copy, reply iff nothing written; C03.6 reply seq/type from the request; C03.7 push paths cannot reach a write; C03.8 every nil return of bindCall leaves a non-OK status; C03.9 read-error classification in the read loop; C03.10 an error reply is always encodable; C03.11 a Pack that fails has written nothing (or tears the transport down), so the fallback reply is never a second reply",
-         "behaviour of handler programs and plugins; concurrent arrivals are covered only through the single-reader/once-per-iteration structure (C01.5, C03.1); Go() pool exhaustion drops a CALL without reply (documented load shedding, see DESIGN section 4)"),
+         "C03.1 handle() has one caller, once per message; C03.2 handle()/binding() dispatch exactly {Call,Reply,Push}, everything else disconnects / is marked not-allowed; C03.3 handler at most once and only on the OK edges of c.stat and of the body hook, handler fields read nowhere else; C03.4 writeReply on every normal path, second write only after a failed first, written flag only after success; C03.5 panic path: recover, 500 copy, reply iff nothing written; C03.6 reply seq/type from the request; C03.7 push paths cannot reach a write; C03.8 every nil return of bindCall leaves a non-OK status; C03.9 read-error classification in the read loop; C03.10 an error reply is always encodable; C03.11 a Pack that fails has written nothing (or tears the transport down), so the fallback reply is never a second reply; C03.12 a CALL the read loop cannot dispatch (goroutine pool exhausted) is answered with an error reply",
+         "behaviour of handler programs and plugins; concurrent arrivals are covered only through the single-reader/once-per-iteration structure (C01.5, C03.1)"),
  "C02": ("must-pass-through / dominance / who-may-call analysis of the call-completion protocol over go/ssa, with path-sensitive status tracking",
          "C02.1 completion effects (send, close(doneChan), WaitGroup.Done) only in done/cancel, once each in order; C02.2 callers of done/cancel and their guards; C02.3 completion under the per-call mutex at all three sites; C02.4 bindReply marks the call replied on every path after Lock; C02.5 the lock taken in bindReply is released on every path of the read loop incl. Go() failure and the panic edge; C02.6 disconnect drains the pending table on every non-closed path before close/redial/hook; C02.7 a published call is written or completed on every return of AsyncCall; C02.8 read-loop recover+readDisconnected barrier; C02.9 call wait-group Add/Done pairing",
          "a full user-supplied completion channel blocking done() (documented caller obligation); timing; that decoders terminate; panicking plugins inside AsyncCall (synthetic recover return excluded)"),
